@@ -23,16 +23,25 @@ func c01Hub(x *Ctx) {
 	lat := []time.Duration{0, time.Millisecond, 40 * time.Millisecond, 400 * time.Millisecond}[x.Choose("latency", 4)]
 	x.Net.Latency = func(*simnet.Conn) time.Duration { return lat }
 	waiting := x.Chance("allow-waiting", 0.7)
+	// variant: B was a stored pairing (registered before Start) that the user
+	// cancels / unregisters before any connection exists - trust withdrawn
+	storedThenWithdrawn := PickB(x, "stored-then-withdrawn", 0.5, []string{"", "cancel", "unregister"})
 	nOps := x.Choose("ops", 8)
 	var ops []string
 	for i := 0; i < nOps; i++ {
 		ops = append(ops, []string{"register-C", "unregister-C", "cancel-C", "cancel-B", "disconnect-B", "unregister-B", "detail-B", "disconnect-C"}[x.Choose("op", 8)])
 	}
-	x.SigAdd(fmt.Sprintf("lat=%v waiting=%v ops=%v", lat, waiting, ops))
-	x.SetSample(map[string]any{"engine": "hub", "latency": lat.String(), "waiting_allowed": waiting, "user_ops_on_A": ops})
+	x.SigAdd(fmt.Sprintf("lat=%v waiting=%v ops=%v withdrawn=%s", lat, waiting, ops, storedThenWithdrawn))
+	x.SetSample(map[string]any{"engine": "hub", "latency": lat.String(), "waiting_allowed": waiting, "user_ops_on_A": ops, "stored_pairing_withdrawn_by": storedThenWithdrawn})
+	aStarted := make(chan struct{})
 	x.Go("B:start", func() {
 		b.create()
 		simrt.Recv("a", a.ready)
+		if storedThenWithdrawn != "" {
+			// B only appears after A's user has withdrawn the trust
+			simrt.Recv("a-started", aStarted)
+			simrt.Sleep(time.Second)
+		}
 		b.hub.RegisterRemoteSKI(a.ski)
 		b.hub.Start()
 		// B's application writes as soon as it thinks it is connected
@@ -50,7 +59,17 @@ func c01Hub(x *Ctx) {
 		a.app.mu.Unlock()
 		simrt.Recv("b", b.ready)
 		simrt.Recv("c", c.ready)
+		if storedThenWithdrawn != "" {
+			a.hub.RegisterRemoteSKI(b.ski)
+		}
 		a.hub.Start()
+		switch storedThenWithdrawn {
+		case "cancel":
+			a.hub.CancelPairingWithSKI(b.ski)
+		case "unregister":
+			a.hub.UnregisterRemoteSKI(b.ski)
+		}
+		close(aStarted)
 		for _, op := range ops {
 			simrt.Sleep(time.Duration(x.Choose("gap", 6)) * 700 * time.Millisecond)
 			x.Ev("op", op, "", 0)
